@@ -9,6 +9,8 @@ from vlib.pyround import to_quantum
 
 PID = 'C11'
 PROPERTY_FILE = 'Properties/C11.v'
+# generated model parts (translate/) this property's model / proofs really depend on
+GEN_DEPS = []
 MODEL_TARGETS = ['Corr/MoneyConvCorr.vo']
 PROOF_TARGETS = ['Proofs/C11Proofs.vo']
 COQ_HEADER = ("From QV Require Import Model.Num Model.Quantity Model.Rates "
